@@ -172,7 +172,17 @@ def check_run(case, res):
         regain = np.maximum(dens[1:, 0] - dens[:-1, 0], 0.0) / mass0
         drop = -np.diff(rfd) - regain
         # 1 - sum(rho)/sum(rho_0) over nx nodes carries a rounding error of ~ eps nx in absolute terms
-        res.check("C03/in-place-recovery-non-decreasing", max(float(np.max(drop)), 0.0), 1e-6 * ceiling + 1e-12 + 512 * np.finfo(float).eps * nx, f"in-place recovery decreases by more than node 0 regains: {float(np.max(drop))!r} (ceiling {ceiling!r});")
+        tol_ip = 1e-6 * ceiling + 1e-12 + 512 * np.finfo(float).eps * nx
+        res.check("C03/in-place-recovery-non-decreasing", max(float(np.max(drop)), 0.0), tol_ip, f"in-place recovery decreases by more than node 0 regains: {float(np.max(drop))!r} (ceiling {ceiling!r});")
+        # the literal sentence: in-place recovery does not decrease at all.  On the unchanged tree it does, by what node 0
+        # regains when it rises (it is reset to the frac-face value before every step; same root cause as C01's known
+        # finding): recorded as a known finding, recognised by exactly that mechanism (the oracle above reports any
+        # decrease that node 0's regain does not cover)
+        falls = -np.diff(rfd)
+        if float(np.max(falls)) > tol_ip and float(np.max(drop)) <= tol_ip:
+            kf = int(np.argmax(falls))
+            res.bad("C03/in-place-recovery-non-decreasing-literal", f"in-place recovery falls by {float(falls[kf])!r} ({float(falls[kf]) / ceiling:.3g} of the ceiling) on step {kf}->{kf + 1} (dt={float(np.diff(t)[kf])!r}); node 0 regains {float(regain[kf])!r} of the initial mass on that step (it is reset to the frac-face value before every step and rises when the step grows); nx={nx}")
+            res.labels["literal_in_place_monotone"] = "violated"
     rb = c01.relaxation_bound(r) if r.constant_drawdown and nt > 1 else float("inf")
     # plateau: once the run has relaxed to the frac-face value used by its last steps (a-priori bound from the time
     # grid and the schedule, not from the field) the fluid in place is that of a reservoir at that pressure, so
@@ -220,6 +230,11 @@ def check_ladder(case, res):
         res.check("C03/gap-shrinks-under-refinement", (gaps[-1] - e) / gaps[0], 0.65, f"flux/in-place gap (relative to the ceiling) goes {gaps} along nx={nxs} (eps_table/ceiling {max(adm)!r}): overall ratio;")
     res.check("C03/flux-equals-in-place", gaps[-1], C_GAP / nxs[-1] * 2 + 1.5 * max(adm) + 1e-9, f"gap {gaps[-1]!r} of the ceiling at nx={nxs[-1]} (ladder {gaps});")
     res.nontrivial = True
+
+
+def known_match(case, v):
+    """Known finding: falls of in-place recovery covered by the mass node 0 regains (mechanism decided where it is raised)."""
+    return "node0-regains-mass-when-step-grows" if v.oracle == "C03/in-place-recovery-non-decreasing-literal" else None
 
 
 def check_case(case) -> Result:
